@@ -147,6 +147,111 @@ fn render_v6(g: [u16; 8], compress: Option<(usize, usize)>, quad: bool, grp: &mu
     }
 }
 
+/// The longest legal spelling: six four-digit groups and a dotted quad (up to 45 bytes).
+pub fn spell_v6_long_quad(g: [u16; 8], upper: bool) -> String {
+    render_v6(g, None, true, &mut |v| hexgroup(v, if upper { 3 } else { 2 }))
+}
+
+/// A corruption DERIVED from a valid address text by one small edit that can never yield a valid address
+/// (a letter that is no hex digit, an octet above 255, a fifth digit in a group, a foreign character at the end).
+/// `where_` biases the edit position: 0 anywhere, 1 within the last six bytes, 2 within the first six bytes.
+pub fn corrupt_addr_text(t: &mut Tape, valid: &str) -> Vec<u8> {
+    let mut s = valid.as_bytes().to_vec();
+    let n = s.len();
+    let pos = |t: &mut Tape, n: usize| -> usize {
+        match t.weighted(&[2, 2, 1]) {
+            0 => t.below(n as u32) as usize,
+            1 => n - 1 - t.below(n.min(6) as u32) as usize,
+            _ => t.below(n.min(6) as u32) as usize,
+        }
+    };
+    match t.weighted(&[4, 3, 3, 2, 2]) {
+        0 => {
+            let k = pos(t, n);
+            s[k] = *t.pick(&[b'g', b'x', b'-', b'_', b'G', b'z']);
+        }
+        1 => {
+            let k = pos(t, n);
+            s.insert(k, *t.pick(&[b'g', b'x', b'-', b'z']));
+        }
+        2 => {
+            // an octet above 255 (texts with a dotted part), else a letter in place of the last byte
+            if let Some(dot) = s.iter().rposition(|&b| b == b'.') {
+                let which = t.below(2);
+                if which == 0 {
+                    s.truncate(dot + 1);
+                    s.extend_from_slice(t.pick(&["256", "299", "999", "1000", "300"]).as_bytes());
+                } else {
+                    // the octet before the last dot
+                    let start = s[..dot].iter().rposition(|&b| b == b'.' || b == b':').map(|p| p + 1).unwrap_or(0);
+                    let tail = s.split_off(dot);
+                    s.truncate(start);
+                    s.extend_from_slice(t.pick(&["256", "299", "999", "260"]).as_bytes());
+                    s.extend(tail);
+                }
+            } else {
+                s[n - 1] = b'g';
+            }
+        }
+        3 => {
+            s.extend_from_slice(t.pick(&["g", "%", "/", "x", "%1", "/64", "]"]).as_bytes());
+        }
+        _ => {
+            // a fifth digit in a four-digit hex group, else a letter inserted at the front
+            let mut done = false;
+            let mut run = 0;
+            for k in 0..=n {
+                let hex = k < n && s[k].is_ascii_hexdigit();
+                if hex {
+                    run += 1;
+                } else {
+                    if run == 4 && (k == n || s[k] == b':') && !(k < n && s[k] == b'.') {
+                        s.insert(k, b'f');
+                        done = true;
+                        break;
+                    }
+                    run = 0;
+                }
+            }
+            if !done {
+                s.insert(0, b'g');
+            }
+        }
+    }
+    s
+}
+
+/// A corruption derived from a valid port text: a non-digit in it, or more digits than 65535 allows.
+pub fn corrupt_port_text(t: &mut Tape, valid: &str) -> Vec<u8> {
+    let mut s = valid.as_bytes().to_vec();
+    let n = s.len();
+    match t.weighted(&[3, 2, 3, 2]) {
+        0 => {
+            let k = t.below(n as u32) as usize;
+            s[k] = *t.pick(&[b'x', b'o', b'-', b'.', b'a', b'+', b'_']);
+        }
+        1 => {
+            let k = t.below(n as u32 + 1) as usize;
+            s.insert(k, *t.pick(&[b'x', b'.', b'-', b'_', b',']));
+        }
+        2 => {
+            // too many digits: 6 .. 24 of them, no leading zero
+            if s[0] == b'0' {
+                s[0] = b'1' + t.below(9) as u8;
+            }
+            let want = t.usize_in(6, 24);
+            while s.len() < want {
+                s.push(b'0' + t.below(10) as u8);
+            }
+        }
+        _ => {
+            // five digits just above 65535
+            s = format!("{}", 65536 + t.below(34464)).into_bytes();
+        }
+    }
+    s
+}
+
 /// One of the legal RFC 4291 spellings of `g`, chosen from the tape.
 pub fn spell_v6(g: [u16; 8], t: &mut Tape) -> String {
     let style = t.weighted(&[4, 2, 2, 2, 4, 3, 2]);
@@ -1045,7 +1150,41 @@ pub fn gen_v2_header(t: &mut Tape) -> V2Gen {
 /// Near-miss v2 inputs (G-V2MUT).
 pub fn gen_v2_mutant(t: &mut Tape) -> (Vec<u8>, &'static str) {
     let mut h = gen_v2_header(t).bytes;
-    match t.below(10) {
+    match t.below(13) {
+        10 => {
+            // the whole header shifted: a few bytes in front of the signature (blanks, line ends, zeros, a stray byte), or
+            // its first bytes missing
+            if t.chance(3, 4) {
+                let n = 1 + t.below(4) as usize;
+                let mut out: Vec<u8> = (0..n).map(|_| *t.pick(&[b' ', b'\t', b'\r', b'\n', 0u8, b'P', 0xff])).collect();
+                if t.coin() {
+                    let b = out[0];
+                    out.iter_mut().for_each(|x| *x = b);
+                }
+                out.extend_from_slice(&h);
+                (out, "shifted-right")
+            } else {
+                let n = 1 + t.below(3) as usize;
+                (h[n.min(h.len())..].to_vec(), "shifted-left")
+            }
+        }
+        11 | 12 => {
+            // the length field counts something else than the payload: only the TLV section (the sender forgot the address
+            // block), the payload plus the fixed part, the whole buffer; all bytes stay in place
+            if h.len() >= 16 {
+                let l = ((h[14] as usize) << 8) | h[15] as usize;
+                let fam = (h[13] >> 4) as usize & 3;
+                let need = NEED[fam];
+                let v = match t.below(4) {
+                    0 | 1 => l.saturating_sub(need),
+                    2 => l + 16,
+                    _ => h.len(),
+                } & 0xffff;
+                h[14] = (v >> 8) as u8;
+                h[15] = v as u8;
+            }
+            (h, "length-counts-something-else")
+        }
         9 => {
             // cut at a length that is special for this header: the declared length itself (the sender counted the fixed
             // part), the end of the address block, a few bytes either side of those and of the full header
@@ -1112,7 +1251,13 @@ pub fn gen_v2_mutant(t: &mut Tape) -> (Vec<u8>, &'static str) {
 pub fn gen_related(t: &mut Tape, x: &[u8]) -> Vec<u8> {
     let mut y = x.to_vec();
     let cr = y.iter().position(|&b| b == b'\r');
-    match t.below(14) {
+    match t.below(16) {
+        14 | 15 => {
+            // the same endpoints spelled differently (TCP6 lines have many legal spellings per address)
+            if let Some(z) = respell_v1_line(t, &y) {
+                y = z;
+            }
+        }
         12 | 13 => {
             // the same line without its ending (CRLF, LF or CR stripped), or cut right behind the CR
             match t.below(3) {
@@ -1197,6 +1342,31 @@ pub fn gen_related(t: &mut Tape, x: &[u8]) -> Vec<u8> {
         }
     }
     y
+}
+
+/// `PROXY TCP6 a b p q CRLF rest` with both addresses in another legal spelling; None for anything else.
+pub fn respell_v1_line(t: &mut Tape, x: &[u8]) -> Option<Vec<u8>> {
+    let cr = x.iter().position(|&b| b == b'\r')?;
+    let line = std::str::from_utf8(&x[..cr]).ok()?;
+    let mut f = line.split(' ');
+    if f.next()? != "PROXY" || f.next()? != "TCP6" {
+        return None;
+    }
+    let a: std::net::Ipv6Addr = f.next()?.parse().ok()?;
+    let b: std::net::Ipv6Addr = f.next()?.parse().ok()?;
+    let (p, q) = (f.next()?, f.next()?);
+    if f.next().is_some() {
+        return None;
+    }
+    for _ in 0..4 {
+        let out = format!("PROXY TCP6 {} {} {} {}", spell_v6(a.segments(), t), spell_v6(b.segments(), t), p, q);
+        if out.len() + 2 <= 107 && out != line {
+            let mut y = out.into_bytes();
+            y.extend_from_slice(&x[cr..]);
+            return Some(y);
+        }
+    }
+    None
 }
 
 /// A chain: a base input followed by 1..=3 inputs each related to its predecessor (or to the base).
